@@ -28,7 +28,7 @@ MIN_COUNTS = {"quick": {"nontrivial": 350, "calls_accounted": 800, "scenarios_wi
 CASE_TIMEOUT = 300
 MIN_SHARD = 8
 
-CUTS = ["none", "inside-id", "inside-length", "inside-body", "between-frames"]
+CUTS = ["none", "inside-id", "inside-length", "inside-body", "between-frames", "bad-body"]
 
 
 def cases(tier, seed):
@@ -41,7 +41,7 @@ def cases(tier, seed):
                 for after in range(0, n + 1):
                     if cut == "none" and after != n:
                         continue
-                    if cut in ("inside-id", "inside-length", "inside-body") and after >= n:
+                    if cut in ("inside-id", "inside-length", "inside-body", "bad-body") and after >= n:
                         continue
                     pats = PATTERNS if tier == "thorough" else rng.sample(PATTERNS, 3)
                     for pat in pats:
@@ -146,6 +146,7 @@ def _run_mem(ctx, case, res):
         th.start()
         threads.append(th)
     delivered = set()
+    framed = set()
     if case["when"] != "before-send" and (n or case["cut"] == "close-ack"):
         if not writer.wait_frames(n, 15):
             res["harness_error"] = "only %d of %d requests reached the wire" % (len(writer.frames), n)
@@ -176,6 +177,11 @@ def _run_mem(ctx, case, res):
                 res["harness_error"] = "no close request among the frames"
                 return
             partial = encode_message(close_id[0], KGRemoteCloseConnection())
+        if case["cut"] == "bad-body":
+            # a complete frame (right id, right length) whose body cannot be decoded: its caller must not be left waiting
+            nxt = frames[case["after"]]
+            partial = nxt[:20] + b"\xff" * (len(nxt) - 20)
+            framed.add(case["order"][case["after"]])
         if case["cut"] in ("inside-id", "inside-length", "inside-body"):
             nxt = frames[case["after"]]
             cutpos = {"inside-id": 7, "inside-length": 18, "inside-body": 20 + max(1, (len(nxt) - 20) // 2)}[case["cut"]]
@@ -198,6 +204,8 @@ def _run_mem(ctx, case, res):
             tcl.join(20)
             if tcl.is_alive():
                 res["violations"].append({"sig": "close-hangs|pending:%d" % (n - len(delivered)), "what": "close() still blocked 20 s after its acknowledgement was delivered", "detail": case})
+        elif case["cut"] == "bad-body":
+            cnt["undecodable_frames_delivered"] = 1
         elif case["cut"] != "none":
             eof()
     # ------------------------------------------------------------- account for every caller
@@ -211,8 +219,8 @@ def _run_mem(ctx, case, res):
                 continue
             # logical criterion: the listener is gone, nothing can complete this caller any more
             gone = _listener_gone(io, nc)
-            if i in delivered or gone:
-                res["violations"].append({"sig": "hang|" + sigbase, "what": "caller %d still blocked (%s)" % (i, "its response was delivered" if i in delivered else "listener task exited"), "detail": case})
+            if i in delivered or i in framed or gone:
+                res["violations"].append({"sig": "hang|" + sigbase, "what": "caller %d still blocked (%s)" % (i, "its response was delivered" if i in delivered else "its response frame arrived complete but undecodable" if i in framed else "listener task exited"), "detail": case})
             else:
                 res["counters"]["inconclusive_blocked_callers"] = 1
             continue
